@@ -135,7 +135,9 @@ func tokenEq(a, b *esdt.ESDigitalToken) string {
 func c14Values() (toks []*esdt.ESDigitalToken, metas []*esdt.MetaData, roles []*esdt.ESDTRoles) {
 	two64 := new(big.Int).Lsh(big.NewInt(1), 64)
 	huge := new(big.Int).SetBytes(bytes.Repeat([]byte{0xff}, 100))
-	values := []*big.Int{nil, big.NewInt(0), big.NewInt(1), big.NewInt(-1), big.NewInt(255), big.NewInt(256), big.NewInt(-65535), two64, new(big.Int).Neg(two64), huge, new(big.Int).Neg(huge)}
+	two63 := new(big.Int).Lsh(big.NewInt(1), 63)
+	values := []*big.Int{nil, big.NewInt(0), big.NewInt(1), big.NewInt(-1), big.NewInt(255), big.NewInt(256), big.NewInt(-65535), two64, new(big.Int).Neg(two64), huge, new(big.Int).Neg(huge),
+		two63, new(big.Int).Neg(two63), new(big.Int).Sub(two63, big.NewInt(1)), new(big.Int).Sub(two64, big.NewInt(1)), new(big.Int).Mul(big.NewInt(10), new(big.Int).Exp(big.NewInt(10), big.NewInt(18), nil))}
 	bytesDom := [][]byte{nil, {}, []byte("x")}
 	uriDom := [][][]byte{nil, {}, {{}}, {[]byte("u"), []byte("v")}, {nil, []byte("w")}}
 	for _, nonce := range []uint64{0, 1, 127, 128, 1 << 63, 1<<64 - 1} {
@@ -306,6 +308,14 @@ func C14(tier Tier) int {
 	two64 := new(big.Int).Lsh(big.NewInt(1), 64)
 	huge := new(big.Int).SetBytes(bytes.Repeat([]byte{0xff}, 100))
 	amounts = append(amounts, two64, new(big.Int).Neg(two64), huge, new(big.Int).Neg(huge))
+	// word boundaries: 2^k - 1, 2^k, 2^k + 1 for every k up to 130, both signs
+	for k := uint(16); k <= 130; k++ {
+		p2 := new(big.Int).Lsh(big.NewInt(1), k)
+		for _, d := range []int64{-1, 0, 1} {
+			v := new(big.Int).Add(p2, big.NewInt(d))
+			amounts = append(amounts, v, new(big.Int).Neg(v))
+		}
+	}
 	Parallel(len(amounts), func(wk, i int) {
 		e := ws[wk]
 		v := amounts[i]
@@ -498,7 +508,7 @@ func C14(tier Tier) int {
 	ws[0].Sample(map[string]string{"value": "ESDigitalToken{Type:1, Value:-1, Properties:0100, TokenMetaData:{Nonce:1}, Reserved:01}", "reference_encoding": fmt.Sprintf("%x", refToken(&esdt.ESDigitalToken{Type: 1, Value: big.NewInt(-1), Properties: []byte{1, 0}, TokenMetaData: &esdt.MetaData{Nonce: 1}, Reserved: []byte{1}}))})
 	ws[0].Sample(map[string]string{"amount": "2^64", "wire": fmt.Sprintf("%x", refAmount(two64))})
 	return FinishEnum(P, tier, "exploration", start,
-		fmt.Sprintf("exhaustive: all buffers of length 0..2 (and length 3: all in thorough, every 5th third byte in quick) into the amount decoder; all amounts nil, +-m for m < 65536, +-2^64, +-(100-byte max) through Size/MarshalTo/Unmarshal; full product of field domains for the three messages (%d token values, %d metadata values, %d role lists) against a reference protobuf encoder; all byte strings of length <= %d over 256 values and <= %d over the 13 wire-significant bytes, plus every truncation and every single-byte substitution (13 bytes) of valid encodings, into the three decoders. A class is distinct by (decoder, accept/reject, length | field shape)", len(toks), len(metas), len(roles), maxFull, maxWire),
+		fmt.Sprintf("exhaustive: all buffers of length 0..2 (and length 3: all in thorough, every 5th third byte in quick) into the amount decoder; all amounts nil, +-m for m < 65536, +-(2^k-1, 2^k, 2^k+1) for k = 16..130, +-(100-byte max) through Size/MarshalTo/Unmarshal; full product of field domains for the three messages (%d token values, %d metadata values, %d role lists) against a reference protobuf encoder; all byte strings of length <= %d over 256 values and <= %d over the 13 wire-significant bytes, plus every truncation and every single-byte substitution (13 bytes) of valid encodings, into the three decoders. A class is distinct by (decoder, accept/reject, length | field shape)", len(toks), len(metas), len(roles), maxFull, maxWire),
 		[]string{"the reference encoder (60 lines, from esdt.proto) and the proto file are trusted", "MarshalTo into a buffer shorter than Size() is outside the statement and not exercised"},
 		true, map[string]interface{}{"valid_encodings_mutated": len(valid) / step}, []string{"token:ok:len2", "token:err:len3", "meta:ok:len2", "roles:err:len1", "amount:nil"}, ws...)
 }
